@@ -521,9 +521,16 @@ def py_bracketed(p):
     return ok
 
 
+def py_disciplined(p):
+    """Writers' discipline: Acq/Rel balanced, Writes under the lock, Reads anywhere."""
+    return py_bracketed([e for e in p if e != R])
+
+
 def sched_oracle(ps, sched, ticks, final, owners_before):
-    """The property statement, on what the real lock did.  Only for families of bracketed programs."""
+    """The property statement, on what the real lock did.  Only for families of disciplined programs
+    (writes under the lock); snapshot guarantees only for the bracketed threads among them."""
     n = len(ps)
+    snap = [py_bracketed(p) for p in ps]
     pcs = [0] * n
     sect_ver: list = [None] * n      # version found at the outermost acquisition of the open section
     depth = [0] * n
@@ -551,6 +558,9 @@ def sched_oracle(ps, sched, ticks, final, owners_before):
                 if depth[t] == 0:
                     sect_ver[t] = ver
                 depth[t] += 1
+        elif ev == R and not snap[t]:
+            if kind != 2:
+                return f"sched: tick {i}: an unlocked read did not execute"
         else:
             if own != 1:
                 return f"sched: tick {i}: thread {t} executes {EV_NAMES[ev]} without owning the lock"
@@ -599,7 +609,8 @@ class Prop:
     case_vo = "theories/Cases/CaseLock.vo"
     run_fn = "run18"
     shard = 250
-    rule = ("sched: families of 1-4 thread programs over Acq/Rel/Read/Write (75% bracketed with nesting <= 3, 25% arbitrary, "
+    rule = ("sched: families of 1-4 thread programs over Acq/Rel/Read/Write (75% disciplined - bracketed with nesting <= 3, a quarter of "
+            "the threads with extra unlocked reads - and 25% arbitrary, "
             "to exercise refused/erroneous steps) under random schedules (bursty, with ticks of finished and non-existent "
             "threads), plus ALL schedules of length total+1 of three fixed two-thread families; re-executed by real threads on "
             "the _lock of a real Tree.  trace/park/owner: every snapshot operation (copy, copy(predicate), filtered, copy_to "
@@ -686,7 +697,11 @@ class Prop:
             ps = []
             for t in range(nt):
                 if disciplined:
-                    ps.append(gen_bracketed(rng, rng.randint(2, 8), writer=rng.random() < 0.5))
+                    p = gen_bracketed(rng, rng.randint(2, 8), writer=rng.random() < 0.5)
+                    if rng.random() < 0.25:          # a thread that also looks at the tree without the lock
+                        for _ in range(rng.randint(1, 2)):
+                            p.insert(rng.randrange(len(p) + 1), R)
+                    ps.append(p)
                 else:
                     ps.append([rng.choice([A, A, L, L, R, W]) for _ in range(rng.randint(0, 6))])
             total = sum(len(p) for p in ps)
@@ -732,7 +747,7 @@ class Prop:
         ps, sched = desc["ps"], desc["sched"]
         ticks, final, owners_before = exec_sched(ps, sched)
         fail = None
-        if all(py_bracketed(p) for p in ps):
+        if all(py_disciplined(p) for p in ps):
             fail = sched_oracle(ps, sched, ticks, final, owners_before)
         coq = (f"CSched {H.coq_list(H.coq_list(str(e) for e in p) for p in ps)} "
                f"{H.coq_list(H.z(t) for t in sched)}")
@@ -740,7 +755,9 @@ class Prop:
         refused = sum(1 for t in ticks if t[0] == 1)
         return Case(desc=desc, coq_input=coq, impl_obs=[ticks, final], oracle_fail=fail,
                     nontrivial=bool(refused or nested), key=H.digest([ps, sched]),
-                    stats=dict(kind="sched", threads=len(ps), refused_ticks=min(refused, 6), disciplined=all(py_bracketed(p) for p in ps),
+                    stats=dict(kind="sched", threads=len(ps), refused_ticks=min(refused, 6),
+                               family=("bracketed" if all(py_bracketed(p) for p in ps) else
+                                       "disciplined" if all(py_disciplined(p) for p in ps) else "arbitrary"),
                                release_errors=min(sum(1 for t in ticks if t[0] == 3), 3)))
 
     # --- trace
